@@ -97,6 +97,11 @@ API_PATHS = [
     ("tuplearg.value_eq", "DataPath('a', MapValue(value=Value.equal_to((u2, u3))))", [], "dm"),
     ("tuplearg.value_in", "DataPath('l', ListValue(value=Value.in_([(u3,), 5])))", [], "dm"),
     ("tuplearg.value_ne", "DataPath('a', MapValue(value=Value.not_equal_to((u2, u3))))", [], "dm"),
+    # membership in a *string* argument is a sub-string test and must stay one (not be written as a list of characters)
+    ("strarg.value_in", "DataPath(MapValue(value=Value.in_('ab')))", [], "dm"),
+    ("strarg.value_not_in", "DataPath('a', MapValue(value=Value.not_in('ab')))", [], "dm"),
+    ("strarg.key_in", "DataPath(MapValue(key=Key.in_('abc')), 'b')", [], "dm"),
+    ("strarg.empty", "DataPath('l', ListValue(value=Value.in_('')))", [], "dm"),
     ("from_str", "DataPath.from_str('a/c/1')", [], "dm"),
     ("from_str.float", "DataPath.from_str('1.5/0')", [], "dk"),
     ("combined.deepcopy", "DataPath.from_part_specs('a', MapValue(key=Key.not_equal_to(k), value=Value.greater_than(t)))", [("k", "str"), ("t", "int")], "dm"),
